@@ -409,6 +409,24 @@ func genC11ufs(c *Ctx) {
 				close(v.ended)
 			}
 		})
+		// part of the history before the disconnect: requests that fail after the file server has begun to
+		// work on them — a hard link onto a taken name (its source is an open fid), a create onto a taken name,
+		// an open of a file that was removed behind the fid
+		if ok && r.Intn(2) == 0 {
+			rt(30, func(fc *g.Fcall) error { return g.PackTwalk(fc, 0, 20, []string{"file"}) })
+			rt(31, func(fc *g.Fcall) error { return g.PackTopen(fc, 20, g.OREAD) })
+			rt(32, func(fc *g.Fcall) error { return g.PackTwalk(fc, 0, 21, nil) })
+			if dotu {
+				if l := rt(33, func(fc *g.Fcall) error { return g.PackTcreate(fc, 21, "file", g.DMLINK|0o644, g.OREAD, "20", dotu) }); l != nil && l.Type != g.Rerror {
+					c.count("ufs-history:link-onto-taken-name-succeeded")
+				}
+			}
+			rt(34, func(fc *g.Fcall) error { return g.PackTcreate(fc, 21, "dir", g.DMDIR|0o755, g.OREAD, "", dotu) })
+			rt(35, func(fc *g.Fcall) error { return g.PackTwalk(fc, 0, 22, []string{"dir", "f0"}) })
+			os.Remove(filepath.Join(e.outer, "export", "dir", "f0"))
+			rt(36, func(fc *g.Fcall) error { return g.PackTopen(fc, 22, g.OREAD) })
+			c.count("ufs-history:failing-requests")
+		}
 		// fids 1..nreq on files of the tree, then requests that open or create through them
 		for j := 1; ok && j <= nreq; j++ {
 			fid := uint32(j)
